@@ -595,6 +595,24 @@ fn scenario_directed(t: &mut Trace) {
     s.exec(t, "approve", &[0, 1], 7, 121, &[0]);
     s.exec(t, "transfer_from", &[1, 0, 2], 7, 0, &[1]);
     s.exec(t, "transfer_from", &[1, 0, 2], 1, 0, &[1]);
+    // ledger 0: an allowance granted AT ledger 0 until ledger 0 is spendable at ledger 0 only; the storage
+    // entry lives on for min_temp_entry_ttl ledgers
+    for min_temp in [16u32, 1] {
+        seq(t, &format!("directed allowance at ledger zero min_temp={} start=0", min_temp));
+        let mut s = Sim::new(min_temp, 0);
+        s.exec(t, "mint", &[0], 1000, 0, &[]);
+        s.exec(t, "approve", &[0, 1], 300, 0, &[0]);
+        s.exec(t, "transfer_from", &[1, 0, 2], 10, 0, &[1]);
+        s.advance(t, 1);
+        s.exec(t, "transfer_from", &[1, 0, 2], 10, 0, &[1]); // expired: live_until 0 < 1
+        s.exec(t, "burn_from", &[1, 0], 10, 0, &[1]);
+        s.advance(t, 10);
+        s.exec(t, "transfer_from", &[1, 0, 2], 1, 0, &[1]);
+        s.exec(t, "approve", &[0, 1], 5, 11, &[0]);
+        s.exec(t, "transfer_from", &[1, 0, 2], 5, 0, &[1]);
+        s.advance(t, 1);
+        s.exec(t, "transfer_from", &[1, 0, 2], 1, 0, &[1]);
+    }
     scenario_c02(t);
     scenario_special(t);
     scenario_long_idle(t);
